@@ -383,6 +383,7 @@ func (s *scripted) closure(update bool) {
 	rec := &hTxn{ID: s.nid, Update: update}
 	failErr := errors.New("closure failed on purpose")
 	wantErr := s.r.Intn(4) == 0
+	wantPanic := s.r.Intn(4) == 0
 	buf := map[int]int32{}
 	snap := s.seq
 	fn := func(tx *originium.Txn) error {
@@ -439,6 +440,9 @@ func (s *scripted) closure(update bool) {
 			}
 		}
 		rec.EndCall = s.tick()
+		if wantErr && wantPanic {
+			panic(failErr) // the closure is abandoned by a panic the caller recovers from
+		}
 		if wantErr {
 			return failErr
 		}
@@ -446,11 +450,22 @@ func (s *scripted) closure(update bool) {
 	}
 	rec.BeginCall = s.tick()
 	var err error
-	if update {
-		err = s.db.Update(fn)
-	} else {
-		err = s.db.View(fn)
-	}
+	func() {
+		defer func() {
+			if r := recover(); r != nil {
+				if r != any(failErr) {
+					panic(r)
+				}
+				err = failErr
+				s.stat["closures_abandoned_by_panic"]++
+			}
+		}()
+		if update {
+			err = s.db.Update(fn)
+		} else {
+			err = s.db.View(fn)
+		}
+	}()
 	rec.EndRet = s.tick()
 	s.txns = append(s.txns, rec)
 	s.logf("closure(update=%v fail=%v)=%v writes %v", update, wantErr, err, rec.Writes)
